@@ -14,8 +14,8 @@ Hypotheses: `A.wf`, `A.dupSlice = false`, `A.HermOK` (as in C01), `A.RealTyped` 
 extraction goes through `A.T`), and the named clauses
 * `NoArrPair ids`     — not both positions integer index arrays (`C20_arrayPair_clause_needed`);
 * `NoDupIx A ids`     — the built `Sliced` operator repeats no index (`C20_dupIx_clause_needed`);
-* `EqualLenLists ids` — two index lists have the same positive length (recorded finding
-  `getitem-list-zip`, `C20_listZip_clause_needed`).
+(the former clause `EqualLenLists` — finding `getitem-list-zip` — is gone: repaired in /repo dd36003,
+`C20_listPair_regression`).
 -/
 
 namespace C20
@@ -24,13 +24,15 @@ variable {R : Type} [CommRing R] [StarRing R] [DecidableEq R]
 open Op in
 /-- `A[ids]` agrees with NumPy indexing of the represented matrix, for every index form of the
 `match` of `__getitem__`: `A[i]`, `A[s]`, `A[b, j]`, `A[i, b]`, `A[s0, s1]`, `A[[i…], [j…]]`
-(negative indices, strided / reversed slices, index arrays, non-square operators of every kind),
+(negative indices, strided / reversed slices, index arrays, non-square operators of every kind; for
+two index lists: equal lengths, a single index broadcast against the other list, lists that cannot
+be broadcast — IndexError on both sides —, empty lists),
 and both sides answer `NotImplemented` for everything else. -/
 theorem C20_getitem_partial (A : Op R) (ids : List GIx) (hwf : A.wf = true)
     (hnd : A.dupSlice = false) (hh : A.HermOK) (hr : A.RealTyped)
-    (hp : NoArrPair ids) (hn : NoDupIx A ids) (he : EqualLenLists ids) :
+    (hp : NoArrPair ids) (hn : NoDupIx A ids) :
     GRes.Agree (A.getitem ids) (npIndex A.rows A.cols A.den.f ids) :=
-  getitem_agree A ⟨hwf, hnd, hh⟩ hr ids hp hn he
+  getitem_agree A ⟨hwf, hnd, hh⟩ hr ids hp hn
 
 /-- readable special case `A[i, j]` (either sign): the entry of the represented matrix. -/
 theorem C20_entry (A : Op R) (hwf : A.wf = true) (hnd : A.dupSlice = false) (hh : A.HermOK)
@@ -69,27 +71,30 @@ theorem C20_dupIx_clause_needed :
     (slicedMatmat act [0] [0, 0] eyeM).f 0 0 = 0 ∧ slicedDen A [0] [0, 0] 0 0 = 1 := by
   decide
 
-/-- `EqualLenLists` is needed (recorded finding `getitem-list-zip`), three ways:
-* a length-1 list: the code zips and truncates (`A[[0,1],[0]]` is the 1-vector `[A[0,0]]`), NumPy
-  broadcasts the short list (`[A[0,0], A[1,0]]`);
-* lists of different lengths > 1: the code truncates to the shorter one, NumPy raises `IndexError`
-  (shape mismatch);
-* two empty lists: the code raises `ValueError` (`stack` of nothing), NumPy returns the empty
-  vector. -/
-theorem C20_listZip_clause_needed :
+/-- **regression for the repaired defect `getitem-list-zip`** (/repo dd36003; the code used to zip
+the two lists): a single index is broadcast against the other list (`A[[0,1],[0]]` is the 2-vector
+`[A[0,0], A[1,0]]`), lists that cannot be broadcast are rejected with `IndexError`, two empty lists
+give the empty vector — each time exactly what NumPy indexing of the represented matrix gives -/
+theorem C20_listPair_regression :
     let A : Op Int := .dense .f64 2 2 (fun i j => 2 * i + j)
     let bc : List GIx := [.list [0, 1], .list [0]]
     let mm : List GIx := [.list [0, 1, 0], .list [0, 1]]
     let em : List GIx := [.list [], .list []]
-    ((∃ v, A.getitem bc = .vec 1 v) ∧ (∃ w, Op.npIndex A.rows A.cols A.den.f bc = .vec 2 w) ∧
-        ¬ GRes.Agree (A.getitem bc) (Op.npIndex A.rows A.cols A.den.f bc)) ∧
-      ((∃ v, A.getitem mm = .vec 2 v) ∧ Op.npIndex A.rows A.cols A.den.f mm = .err "index-error" ∧
-        ¬ GRes.Agree (A.getitem mm) (Op.npIndex A.rows A.cols A.den.f mm)) ∧
-      (A.getitem em = .err "error:ValueError" ∧
-        (∃ w, Op.npIndex A.rows A.cols A.den.f em = .vec 0 w) ∧
-        ¬ GRes.Agree (A.getitem em) (Op.npIndex A.rows A.cols A.den.f em)) := by
-  simp [Op.getitem, Op.npIndex, Op.npPaired, Op.bcastIdx, Op.rows, Op.cols, GRes.wrap, GRes.wrapAll,
-    GRes.Agree]
+    (∃ v, A.getitem bc = .vec 2 v ∧ v 0 = 0 ∧ v 1 = 2) ∧
+      GRes.Agree (A.getitem bc) (Op.npIndex A.rows A.cols A.den.f bc) ∧
+      A.getitem mm = .err "index-error" ∧
+      Op.npIndex A.rows A.cols A.den.f mm = .err "index-error" ∧
+      (∃ v, A.getitem em = .vec 0 v) ∧ (∃ w, Op.npIndex A.rows A.cols A.den.f em = .vec 0 w) := by
+  have hg : Op.Good (.dense .f64 2 2 (fun i j => 2 * i + j) : Op Int) :=
+    ⟨by simp [Op.wf], by simp [Op.dupSlice], by
+      simp [Op.HermOK, Op.HermNode, Op.isa, Op.anns, AnnSet.isa]⟩
+  refine ⟨?_, Op.getitem_list_list _ hg _ _, ?_, ?_, ?_, ?_⟩
+  · simp [Op.getitem, Op.listBcast, Op.rows, Op.cols, GRes.wrap, Op.colVec, Op.mm, Op.canonical,
+      mmul, sumTo]
+  · simp [Op.getitem, Op.listBcast]
+  · simp [Op.npIndex, Op.npPaired, Op.bcastIdx]
+  · simp [Op.getitem, Op.listBcast]
+  · simp [Op.npIndex, Op.npPaired, Op.bcastIdx, GRes.wrapAll]
 
 /-- non-vacuity: a nested non-square tree (4 × 2) with a reversed strided slice and an index
 array satisfying all hypotheses and clauses. -/
@@ -98,8 +103,8 @@ example :
       .prod [.dense .f64 2 2 (fun i j => i + j), .diag .f64 2 (fun i => i + 2)]]
     let ids : List GIx := [.ix (.slice (some (-1)) none (some (-2))), .ix (.arr [1, -2])]
     A.wf = true ∧ A.dupSlice = false ∧ A.HermOK ∧ A.RealTyped ∧ Op.NoArrPair ids ∧
-      Op.NoDupIx A ids ∧ Op.EqualLenLists ids := by
-  refine ⟨?_, ?_, ?_, ?_, ?_, ?_, ?_⟩
+      Op.NoDupIx A ids := by
+  refine ⟨?_, ?_, ?_, ?_, ?_, ?_⟩
   · simp [Op.wf, Op.chainOk, Op.rows, Op.cols]
   · simp [Op.dupSlice]
   · simp [Op.HermOK, Op.HermNode, Op.isa, Op.anns, AnnSet.isa, AnnSet.inter, AnnSet.interAll,
@@ -107,7 +112,6 @@ example :
   · simp [Op.RealTyped]
   · simp [Op.NoArrPair]
   · simp [Op.NoDupIx, Op.rows, Op.cols, Ix.resolve, Ix.sliceIndices, Ix.rangeList]
-  · simp [Op.EqualLenLists]
 
 end C20
 
@@ -116,4 +120,4 @@ end C20
 #print axioms C20.C20_row
 #print axioms C20.C20_arrayPair_clause_needed
 #print axioms C20.C20_dupIx_clause_needed
-#print axioms C20.C20_listZip_clause_needed
+#print axioms C20.C20_listPair_regression
